@@ -12,6 +12,7 @@
 //!   C06 look <fs> <tiles> <x,y,z>                                          → none | <source coord> | err | panic
 //!   C06 stream <fs> <tiles> <box>                                          → sorted `out=src;…` | - | panic
 //!   C06 walk <fs> <req|-> <srccover> <tiles>                               → <cover>|<sorted tiles>
+//!   C06 rstream <fs> <req> <srccover> <tiles> <box>                        → stream of the RESTRICTED converter over a box reaching beyond the restriction
 //!   C06 serve <fs> <tilesA> <tilesB>   (oracle only) `versatiles serve <flags> [a1]A [b]B [a2]A` vs `versatiles convert <flags>`
 //! `fs` = flip,swap as two bits ("10" = flip only).
 use crate::common::*;
@@ -394,6 +395,88 @@ fn do_stream(out: &mut Out, ctx: &Ctx, sc: &Scen, b: &TileBBox) -> Option<Vec<(C
 	let nontrivial = (sc.f || sc.s) && val.as_ref().is_some_and(|v| !v.is_empty());
 	out.case(&line, &show(r, |_| sort_items(val.clone().unwrap())), nontrivial);
 	val
+}
+
+/// restricted converter (bbox_pyramid = Some(..)): the bbox stream over boxes that reach beyond the
+/// restriction must agree with the single lookups over the same box (both ignore the restriction on the
+/// current tree – the known finding – but they must ignore or honour it TOGETHER)
+fn do_rstream(out: &mut Out, ctx: &Ctx, sc: &Scen, b: &TileBBox) {
+	let line = format!("C06 rstream {} {} {} {} {}", fs_str(sc.f, sc.s), sc.req_str(), pyr_str(&sc.cover), tiles_str(&sc.tiles), box_str(b));
+	let r = catch(|| {
+		let rd = TilesConvertReader::new_from_reader(sc.source().boxed(), sc.params())?;
+		let cov = rd.get_parameters().bbox_pyramid.clone();
+		let items = ctx.rt.block_on(async { rd.get_bbox_tile_stream(b.clone()).await.collect().await });
+		let mut looks = vec![];
+		for c in b.iter_coords() {
+			if let Some(bl) = ctx.rt.block_on(rd.get_tile_data(&c))? {
+				looks.push(((c.x, c.y, c.z), sc.decode(bl)));
+			}
+		}
+		Ok((cov, items, looks))
+	});
+	let val = match &r {
+		Ok(Ok((cov, items, looks))) => Some((cov.clone(), items.iter().map(|(c, bl)| ((c.x, c.y, c.z), sc.decode(bl.clone()))).collect::<Vec<(C, String)>>(), looks.clone())),
+		_ => None,
+	};
+	let nontrivial = val.as_ref().is_some_and(|v| !v.2.is_empty());
+	out.case(&line, &show(r, |_| sort_items(val.clone().unwrap().1)), nontrivial);
+	out.count("restricted_stream_boxes");
+	let Some((cov, items, looks)) = val else {
+		out.oracle(false, "C06 restricted-stream: stream/lookups of the restricted converter failed or panicked", json!({"kind": "restricted_stream_fail", "flip": sc.f, "swap": sc.s}), json!({"case": line}));
+		return;
+	};
+	let (si, li) = (sort_items(items.clone()), sort_items(looks.clone()));
+	let beyond = looks.iter().any(|(c, _)| !in_b(&norm(cov.get_level_bbox(c.2)), c.0, c.1));
+	if beyond {
+		out.count("restricted_stream_boxes_reaching_beyond_with_tiles");
+	}
+	out.oracle(
+		si == li,
+		&format!("C06 restricted-stream-vs-lookup: over {} the bbox stream delivers {} but the single lookups deliver {}", box_str(b), trunc(&si, 200), trunc(&li, 200)),
+		json!({"kind": "restricted_stream_vs_lookup", "flip": sc.f, "swap": sc.s, "beyond": beyond}),
+		json!({"case": line}),
+	);
+	// agreement with the advertised coverage: recorded under the known finding's signature
+	let outside = items.iter().find(|(c, _)| !in_b(&norm(cov.get_level_bbox(c.2)), c.0, c.1));
+	out.oracle(
+		outside.is_none(),
+		&format!("C06 outside-coverage: bbox stream over {} returns a tile at {:?}, outside the advertised level box", box_str(b), outside.map(|x| x.0)),
+		json!({"kind": "outside_coverage", "restricted": sc.req.is_some()}),
+		json!({"case": line}),
+	);
+}
+
+/// boxes that reach beyond the restriction: cut-away levels, straddling boxes, full level boxes
+fn beyond_boxes(sc: &Scen) -> Vec<TileBBox> {
+	let mut v: Vec<TileBBox> = vec![];
+	let Some(req) = &sc.req else { return v };
+	let small = |b: &B| b.map_or(false, |(x0, y0, x1, y1)| (x1 - x0 + 1) as u64 * (y1 - y0 + 1) as u64 <= 1100);
+	for z in 0u8..32 {
+		let m = ((1u64 << z) - 1) as u32;
+		let t = t_box(sc.f, sc.s, z, &norm(sc.cover.get_level_bbox(z)));
+		let Some((x0, y0, x1, y1)) = t else { continue };
+		let grow = |(a, b, c, d): (u32, u32, u32, u32), k: u32| (a.saturating_sub(k), b.saturating_sub(k), (c as u64 + k as u64).min(m as u64) as u32, (d as u64 + k as u64).min(m as u64) as u32);
+		let mut cands: Vec<B> = vec![];
+		if z <= 5 {
+			cands.push(Some((0, 0, m, m))); // the full level box
+		}
+		cands.push(Some(grow((x0, y0, x1, y1), 1))); // everything the source has here (+1 ring)
+		if let Some(r) = norm(req.get_level_bbox(z)) {
+			// straddling: the restricted box grown by 2, and shifted half out
+			cands.push(Some(grow(r, 2)));
+			cands.push(Some((r.0, r.1, (r.2 as u64 + 3).min(m as u64) as u32, r.3)));
+		}
+		for c in cands {
+			if small(&c) {
+				let (a, b, c2, d) = c.unwrap();
+				let bx = TileBBox::new(z, a, b, c2, d).unwrap();
+				if !v.contains(&bx) {
+					v.push(bx);
+				}
+			}
+		}
+	}
+	v
 }
 
 const TARGETS: [&str; 5] = ["versatiles", "pmtiles", "tar", "mbtiles", "dir"];
@@ -930,6 +1013,12 @@ fn scenario(out: &mut Out, ctx: &mut Ctx, rng: &mut Rng, sc: &Scen, opts: Option
 		}
 	}
 	out.oracle(e.is_none(), &format!("C06 stream: {}", e.clone().unwrap_or_default()), json!({"kind": "stream", "flip": sc.f, "swap": sc.s}), json!({"case": format!("C06 stream {} {} {}", fs_str(sc.f, sc.s), tiles_str(&sc.tiles), bad_box.unwrap_or("-".into()))}));
+	// restricted converter: stream vs lookups on boxes reaching beyond the restriction
+	if sc.req.is_some() {
+		for b in beyond_boxes(sc).iter().take(5) {
+			do_rstream(out, ctx, sc, b);
+		}
+	}
 	// the conversion (the default stream materialises every coordinate of a level box: keep them small)
 	if sc.cover.level_bbox.iter().any(|b| b.count_tiles() > 5000) {
 		out.count("walk_skipped_large_cover");
@@ -1315,6 +1404,10 @@ fn replay_line(out: &mut Out, ctx: &mut Ctx, line: &str) {
 			if t[4] != "-" {
 				do_stream(out, ctx, &sc, &parse_box(t[4]));
 			}
+		}
+		"rstream" if t.len() == 7 => {
+			let (f, s) = flags(t[2]);
+			do_rstream(out, ctx, &mk(f, s, opt_pyr(t[3]), parse_pyr(t[4]), parse_tiles(t[5])), &parse_box(t[6]));
 		}
 		"serve" if t.len() == 5 => {
 			if let Some(bin) = vth_bin() {
